@@ -3,6 +3,7 @@ package c15
 import (
 	"errors"
 	"io"
+	goruntime "runtime"
 )
 
 // Script is the behaviour of one scripted stream (or stream-like payload).
@@ -88,6 +89,10 @@ type sReader struct {
 
 	reads, closes, readsAfterClose int
 	errDelivered, eofDelivered     bool
+
+	// yield: the reader gives the processor away before every read (concurrent cases: the calls that share
+	// one codec instance then interleave whatever the scheduler and the number of processors)
+	yield bool
 }
 
 func newReader(data []byte, sc Script) *sReader { return &sReader{data: data, sc: sc} }
@@ -115,6 +120,9 @@ func (r *sReader) limit() int {
 }
 
 func (r *sReader) Read(p []byte) (int, error) {
+	if r.yield {
+		goruntime.Gosched()
+	}
 	r.reads++
 	if r.closes > 0 {
 		r.readsAfterClose++
@@ -195,11 +203,16 @@ type sWriter struct {
 
 	writes, closes, writesAfterClose int
 	errDelivered                     bool
+
+	yield bool // see sReader.yield
 }
 
 func newWriter(sc Script) *sWriter { return &sWriter{sc: sc} }
 
 func (w *sWriter) Write(p []byte) (int, error) {
+	if w.yield {
+		goruntime.Gosched()
+	}
 	w.writes++
 	if w.closes > 0 {
 		w.writesAfterClose++
